@@ -61,6 +61,31 @@ async def main():
             env.update(case["env"])
         params = StdioParameters(command=sys.executable,
                                  args=["-B", os.path.join(ROOT, "children", "misbehave.py"), case["behaviour"]], env=env)
+    companion = {}
+    if case.get("companion"):
+        # another, healthy stdio client of the same process, opened earlier and still in use afterwards
+        c_ready, c_release, c_check = asyncio.Event(), asyncio.Event(), asyncio.Event()
+
+        async def companion_owner():
+            cparams = StdioParameters(command=sys.executable,
+                                      args=["-B", os.path.join(ROOT, "children", "misbehave.py"), "well_behaved"])
+            async with stdio_client(cparams) as (cr, cw):
+                companion["pid"] = obs["pids"].pop()
+                try:
+                    companion["before"] = repr(await send_message(cr, cw, "ping", timeout=2.0))[:60]
+                except BaseException as e:  # noqa
+                    companion["before"] = "ERR " + repr(e)[:80]
+                c_ready.set()
+                await c_check.wait()
+                companion["state_after"] = proc_state(companion["pid"])
+                try:
+                    companion["after"] = repr(await send_message(cr, cw, "tools/list", timeout=2.0))[:60]
+                except BaseException as e:  # noqa
+                    companion["after"] = "ERR " + repr(e)[:80]
+                companion["checked"] = True
+                await c_release.wait()
+        companion["task"] = asyncio.create_task(companion_owner())
+        await c_ready.wait()
     gc.collect()
     obs["fds_before"] = fd_table()
     pending = {}
@@ -190,6 +215,21 @@ async def main():
     before = obs.pop("fds_before")
     obs["fd_new"] = sorted(v for k, v in after.items() if k not in before)
     obs["fd_delta"] = len(after) - len(before)
+    if companion:
+        c_check.set()
+        for _ in range(60):
+            if companion.get("checked") or companion["task"].done():
+                break
+            await asyncio.sleep(0.1)
+        c_release.set()
+        try:
+            await asyncio.wait_for(companion["task"], 5.0)
+        except BaseException as e:  # noqa
+            companion["close_error"] = repr(e)[:100]
+        await asyncio.sleep(0.2)
+        companion["state_end"] = proc_state(companion["pid"]) if "pid" in companion else "never-started"
+        companion.pop("task", None)
+        obs["companion"] = companion
     anyio.open_process = orig
 
 
